@@ -217,11 +217,11 @@ NoClock(bk) == [Proj(bk) EXCEPT !.now = 0]
 Redundant(old, lbl) ==
   CASE lbl.op = "place"   -> O(old, lbl.id).status # "New"
     [] lbl.op = "cancel"  -> O(old, lbl.id).status # "Active"
-    [] lbl.op = "modify"  -> O(old, lbl.id).status # "Active" \/ (lbl.p = None /\ lbl.v = None)
+    [] lbl.op = "modify"  -> ModKind(old, lbl.id, lbl.p, lbl.v) = "noop"
     [] lbl.op = "event"   ->
          (CASE lbl.k = "new"    -> O(old, lbl.id).status # "New"
             [] lbl.k = "cancel" -> O(old, lbl.id).status # "Active"
-            [] lbl.k = "modify" -> O(old, lbl.id).status # "Active" \/ (lbl.p = None /\ lbl.v = None))
+            [] lbl.k = "modify" -> ModKind(old, lbl.id, lbl.p, lbl.v) = "noop")
     [] lbl.op = "settime" -> TRUE
     [] lbl.op = "reload"  -> TRUE
     [] OTHER -> FALSE
